@@ -335,7 +335,26 @@ func (c *Ctx) traces(fi *FuncInfo) *Interp {
 
 func (c *Ctx) defOpts() TraceOpts {
 	v := c.vocab()
-	return TraceOpts{NonNil: func(f *types.Func) bool { return f == v.bDie || f == v.cDie }}
+	if c.passArg == nil {
+		c.passArg = map[*types.Func]int{}
+		// client cleanup(err, …) hands back a non-nil error whenever it was given one: verified here
+		if fi := c.P.ByObj[v.cCleanup]; fi != nil {
+			sig := fi.Obj.Type().(*types.Signature)
+			if sig.Params().Len() > 0 && sig.Results().Len() == 1 {
+				in := c.P.TraceFunc(fi, TraceOpts{Init: map[types.Object]Val{sig.Params().At(0): {K: VNonNil}}})
+				ok := len(in.Traces) > 0 && !in.Over
+				for _, t := range in.Traces {
+					if t.Exit != ExitReturn || len(t.RVals) != 1 || t.RVals[0].K != VNonNil {
+						ok = false
+					}
+				}
+				if ok {
+					c.passArg[v.cCleanup] = 0
+				}
+			}
+		}
+	}
+	return TraceOpts{NonNil: func(f *types.Func) bool { return f == v.bDie || f == v.cDie }, PassArg: c.passArg}
 }
 
 // loopsAt returns the loop statements enclosing event index i of the trace (outermost first).
